@@ -63,6 +63,89 @@ theorem C18_ranksAgree_of_unique_eligible (cfg : Config) (hwf : Spec.wfCommon cf
     Spec.ranksAgree E cfg req = true :=
   Restful.C18_ranksAgree_of_unique_eligible E cfg hwf hroots hclean req hp huniq
 
+/-! ### non-vacuity (audit)
+
+`C18_agree_partial` has its `decide`d instance in Lemmas/Agree.lean (`C18Witness.cfg`: `/users` with
+GET `/{id}`, GET `/me`, POST `/{id}`; `/users/admin` with GET `/{thing}/log` — nested literal roots).
+Added here: the other three theorems on the same table with all their hypotheses, requests on which
+several routes are candidates, and the fact that `Spec.sameOutcome` / the admission equation are not
+trivially true. -/
+namespace C18Audit
+open C18Witness
+
+/-- the full template of route 10 (`/users/{id}`), as both routers read it -/
+def tsId : List TTok := [⟨.lit "users".toList, none⟩, ⟨.var "id".toList, none⟩]
+
+example : readTemplate "/users/{id}".toList = some tsId ∧ Spec.readTemplateJ "/users".toList "/{id}".toList = some tsId ∧
+    (∀ t ∈ tsId, t.wf = true ∧ Spec.tokCommon t = true) ∧ Spec.normalPath "/users/7/".toList = true := by
+  decide
+/-- `C18_admission_agrees`: admitted by both (with and without the trailing slash) … -/
+example := C18_admission_agrees E0 tsId (by decide) "/users/7/".toList (by decide)
+example : Spec.admits E0 .curly tsId (tokenize "/users/7/".toList) = true ∧
+    Spec.admittedSegments E0 .jsr tsId "/users/7/".toList = some ["users".toList, "7".toList] := by decide
+/-- … refused by both one segment further down; and the hypothesis `normalPath` matters: without the
+    leading slash (`users/7`) or with a doubled one (`//users/7`) the two readings differ (F15), so the
+    equation is not trivially true -/
+example : Spec.admits E0 .curly tsId (tokenize "/users/7/x".toList) = false ∧
+    (Spec.admittedSegments E0 .jsr tsId "/users/7/x".toList).isSome = false ∧
+    Spec.normalPath "users/7".toList = false ∧ Spec.normalPath "//users/7".toList = false ∧
+    Spec.admits E0 .curly tsId (tokenize "users/7".toList) ≠ (Spec.admittedSegments E0 .jsr tsId "users/7".toList).isSome ∧
+    Spec.admits E0 .curly tsId (tokenize "//users/7".toList) ≠ (Spec.admittedSegments E0 .jsr tsId "//users/7".toList).isSome := by
+  decide
+
+/-- `C18_service_agrees` on a URL below BOTH roots: both routers pick the longer root `/users/admin` -/
+example := C18_service_agrees E0 cfg (by decide) (by decide) (by decide) "/users/admin/x/log".toList (by decide)
+example :
+    (Curly.detectWebService E0 (tokenize "/users/admin/x/log".toList) cfg.services none).map (·.map (·.1.id)) = some (some 2) ∧
+    (Jsr.detectDispatcher E0 cfg.services "/users/admin/x/log".toList).map (·.map (·.1.id)) = some (some 2) ∧
+    (Curly.detectWebService E0 (tokenize "/orgs".toList) cfg.services none).map (·.map (·.1.id)) = some none := by
+  decide
+
+/-- POST /users/7: routes 10 (GET) and 12 (POST) both admit the path, only 12 is eligible -/
+def post7 : Req := { get "/users/7" with method := "POST".toList }
+
+/-- the first service of `C18Witness.cfg` -/
+def usersSvc : Service :=
+  { id := 1, root := "/users".toList,
+    routes := [rGet 10 "/{id}", rGet 11 "/me", { rGet 12 "/{id}" with method := "POST".toList }] }
+
+/-- the hypothesis `huniq` of `C18_ranksAgree_of_unique_eligible` on that request -/
+theorem uniq7 : ∀ svc sc, Curly.detectWebService E0 (tokenize post7.path) cfg.services none = some (some (svc, sc)) →
+    ∀ r1 ∈ svc.built, ∀ r2 ∈ svc.built,
+      Spec.pathAdmits E0 .curly r1 post7.path = true → Spec.pathAdmits E0 .curly r2 post7.path = true →
+      Spec.eligible r1 post7 = true → Spec.eligible r2 post7 = true → r1 = r2 := by
+  intro svc sc h
+  have hd : Curly.detectWebService E0 (tokenize post7.path) cfg.services none = some (some (usersSvc, 10)) := by decide
+  rw [hd] at h
+  cases h
+  decide
+
+example : Spec.ranksAgree E0 cfg post7 = true :=
+  C18_ranksAgree_of_unique_eligible E0 cfg (by decide) (by decide) (by decide) post7 (by decide) uniq7
+/-- two routes admit the path (so `huniq` is not vacuous), and both routers run route 12 -/
+example :
+    ((cfg.services.flatMap Service.built).filter (fun r => Spec.pathAdmits E0 .curly r post7.path)).map (·.id) = [10, 12] ∧
+    route E0 (Spec.withRouter cfg .curly) post7 = .selected 1 12 [("id".toList, "7".toList)] ∧
+    route E0 (Spec.withRouter cfg .jsr) post7 = .selected 1 12 [("id".toList, "7".toList)] := by
+  decide
+example := C18_agree_partial E0 cfg (by decide) (by decide) (by decide) (by decide) post7 (by decide)
+  (C18_ranksAgree_of_unique_eligible E0 cfg (by decide) (by decide) (by decide) post7 (by decide) uniq7)
+
+/-- `Spec.sameOutcome` (the conclusion of `C18_agree_partial`) is not trivially true: it separates
+    another route, other parameter values, a route from an error, two statuses, two Allow sets -/
+example :
+    ¬ Spec.sameOutcome (.selected 1 12 [("id".toList, "7".toList)]) (.selected 1 10 [("id".toList, "7".toList)]) ∧
+    ¬ Spec.sameOutcome (.selected 1 12 [("id".toList, "7".toList)]) (.selected 1 12 [("id".toList, "8".toList)]) ∧
+    ¬ Spec.sameOutcome (.selected 1 12 []) (.error 404 none) ∧
+    ¬ Spec.sameOutcome (.error 404 none) (.error 405 none) ∧
+    ¬ Spec.sameOutcome (.error 405 (some ["GET".toList])) (.error 405 (some ["GET".toList, "POST".toList])) := by
+  refine ⟨by simp [Spec.sameOutcome], by simp [Spec.sameOutcome], by simp [Spec.sameOutcome], by simp [Spec.sameOutcome], ?_⟩
+  simp only [Spec.sameOutcome, true_and]
+  intro h
+  exact absurd ((h "POST".toList).mpr (by decide)) (by decide)
+
+end C18Audit
+
 /-! The `decide`d witnesses live next to the lemmas (Lemmas/Agree.lean) and are audited with this property: -/
 -- also: Restful.C18Witness.C18_F15_witness
 -- also: Restful.C18Witness.C18_F16_witness
